@@ -41,11 +41,17 @@ def fixed_value(k: int) -> float:
 
 
 class World:
-    def __init__(self, config: str, n_workers: int) -> None:
+    def __init__(self, config: str, n_workers: int, offset: bool = False) -> None:
         self.config = config
         base = "jlist" if config.startswith("jlist") else config
         self.env = Env(base)
         self.storages = [self.env.storage]
+        if offset:
+            # another study with trials lives in the same storage: ids != numbers, cursors must be per study
+            other = optuna.create_study(storage=self.env.storage, study_name="other", sampler=optuna.samplers.RandomSampler(seed=7))
+            other.enqueue_trial({"x": 0.5})
+            other.optimize(lambda t: t.suggest_float("x", 0, 1), n_trials=2)
+            other.enqueue_trial({"x": 0.75})
         self.study = optuna.create_study(storage=self.env.storage, study_name="c04",
                                          sampler=optuna.samplers.RandomSampler(seed=0))
         self.studies = [self.study]
@@ -138,13 +144,13 @@ PROGRAMS = {
 
 
 class Run:
-    def __init__(self, config: str, prefix: tuple, programs: tuple) -> None:
-        self.config, self.prefix, self.programs = config, prefix, programs
+    def __init__(self, config: str, prefix: tuple, programs: tuple, offset: bool = False) -> None:
+        self.config, self.prefix, self.programs, self.offset = config, prefix, programs, offset
         thx.set_instrumented([importlib.import_module(m) for m in CONFIGS[config]])
 
     def execute(self, ch: Chooser) -> dict:
         backends.reset_uuid()
-        w = World(self.config, len(self.programs))
+        w = World(self.config, len(self.programs), self.offset)
         try:
             for op in self.prefix:
                 if not w.apply_prefix(op):
@@ -240,10 +246,11 @@ class Run:
 
 
 def task_fn(task: tuple) -> dict:
-    config, prefix, programs, bound = task
+    config, prefix, programs, bound = task[:4]
+    offset = len(task) > 4 and task[4]
     backends.setup_determinism()
     part = Part()
-    run = Run(config, prefix, programs)
+    run = Run(config, prefix, programs, offset)
     outcomes: set = set()
     first = {"done": False}
 
@@ -259,8 +266,8 @@ def task_fn(task: tuple) -> dict:
         for e in ex["errors"]:
             part.note(f"ask/enqueue raised {e[2].split(':')[0]} in {config} (observation, not a clause of C04)")
         for clause, detail in run.check(ex):
-            key = f"thx|{config}|{clause}"
-            part.violation(key, {"engine": "thx", "config": config, "prefix": prefix, "programs": programs,
+            key = f"thx|{config}{'+other-study' if offset else ''}|{clause}"
+            part.violation(key, {"engine": "thx", "config": config, "other_study_in_storage": offset, "prefix": prefix, "programs": programs,
                                  "schedule": ch.choices, "clause": clause, "detail": detail, "asks": ex["got"],
                                  "final": ex["final"], "errors": ex["errors"]})
 
@@ -280,7 +287,7 @@ def task_fn(task: tuple) -> dict:
 def replay_case(raw: dict, part: Part) -> None:
     backends.setup_determinism()
     backends.sqlite_template()
-    run = Run(raw["config"], tuple(raw["prefix"]), tuple(tuple(p) for p in raw["programs"]))
+    run = Run(raw["config"], tuple(raw["prefix"]), tuple(tuple(p) for p in raw["programs"]), bool(raw.get("other_study_in_storage")))
     ex = run.execute(Chooser(list(raw["schedule"])))
     print("asks:", ex["got"], "final:", ex["final"])
     for clause, detail in run.check(ex):
@@ -307,6 +314,12 @@ def run(tier: str, replay: str | None = None) -> int:
             if (tier == "thorough" or cfg == "mem") and not slow:
                 for progs in PROGRAMS[3]:
                     tasks.append((cfg, p, progs, 1))
+    # the same storage also holds another study with (queued) trials: ids are offset from numbers
+    for cfg in ("mem", "jlist", "cached"):
+        for p in [("enq",), ("ask", "enq"), ("enq", "peek"), ("ask", "enq", "enq"), ("add_done", "ask", "enq")]:
+            tasks.append((cfg, p, PROGRAMS[2][0], 1, True))
+            if cfg == "mem" or tier == "thorough":
+                tasks.append((cfg, p, PROGRAMS[2][2], 1, True))
     only = os.environ.get("VF_CONFIGS")
     if only:
         tasks = [t for t in tasks if t[0] in only.split(",")]
